@@ -425,6 +425,30 @@ theorem cached_descent_bounded (M : Int) (s : Sys) (r : RS) (rest : List RS) (z 
 example : (run twelveHours init [.start [1, 7], .substart [1, 8], .referral [1] [20] [], .finish false,
     .referral [1] [7200] [], .answer (3600 * sec)]).answers.head?.map (·.cutUntil) = some (some (20 * sec)) := by decide
 
+/-- **valid_referral_strictly_descends.** The guard in front of the delegation cache (and in
+front of a lookup's winner selection) accepts a referral only if it is one coherent NS RRset
+of the question's class naming a zone STRICTLY below the zone that was asked and at or above
+the name being resolved. Hence a delegated server can never (re)insert the delegation of its
+own zone, of any zone above it, of a sibling or of an unrelated name. -/
+theorem valid_referral_strictly_descends (hasNS incoherent classOk : Bool) (auth z q : Name)
+    (h : validReferral hasNS incoherent classOk auth z q = true) :
+    hasNS = true ∧ incoherent = false ∧ classOk = true ∧
+    auth.isPrefixOf z = true ∧ auth.length < z.length ∧ z.isPrefixOf q = true ∧ z ≠ auth ∧
+    ¬ (z.isPrefixOf auth = true) := by
+  unfold validReferral progressing at h
+  simp only [Bool.and_eq_true, Bool.not_eq_true', decide_eq_true_eq] at h
+  obtain ⟨⟨⟨h1, h2⟩, h3⟩, ⟨h4, h5⟩, h6⟩ := h
+  refine ⟨h1, h2, h3, h4, h5, h6, ?_, ?_⟩
+  · intro he; subst he; omega
+  · intro hp
+    have := List.IsPrefix.length_le (List.isPrefixOf_iff_prefix.mp hp)
+    omega
+
+-- self, upward and sideways referrals are refused; the child zone on the path is accepted
+example : validReferral true false true [1, 2] [1, 2] [1, 2, 3] = false ∧ validReferral true false true [1, 2] [1] [1, 2, 3] = false ∧
+    validReferral true false true [1, 2] [1, 9] [1, 2, 3] = false ∧ validReferral true false true [1, 2] [1, 2, 3] [1, 2, 3] = true ∧
+    validReferral true true true [1] [1, 2] [1, 2, 3] = false := by decide
+
 /-- **alias_lineage_inherited.** When a cache-level sub-query (CNAME / DNAME chase,
 running under its own forked cut) returns and its records or provenance — a bare
 rcode included — reach the deriving response (`finish true` = `lineage.inherit()`),
